@@ -10,6 +10,7 @@ import (
 	"os"
 	"runtime"
 
+	"github.com/buzzfeed/sso/verifharness/cb"
 	"github.com/buzzfeed/sso/verifharness/ps"
 )
 
@@ -42,6 +43,8 @@ func main() {
 		sum, err = ps.RunCells(*in, *out, *seed, *sample, *reps, *workers, *base, *noshuffle)
 	case "ps-hist":
 		sum, err = ps.RunHistories(*out, *seed, *n, *steps, *workers, *only)
+	case "cb-replay":
+		sum, err = cb.RunReplay(*in, *out, *seed, *sample, *workers, *only)
 	default:
 		err = fmt.Errorf("unknown driver %q", drv)
 	}
